@@ -16,6 +16,11 @@ for d in /verif/seeded/*/; do
   out=$(cd /verif && VERIF_REPO="$wt" VF_EVIDENCE_DIR=/verif/replays/seedruns bin/vcheck run --prop "$p" --tier "$tier" 2>&1); rc=$?
   git -C "$wt" checkout -q -- .
   n=$(echo "$out" | grep -c "^VIOLATION property=$p ")
+  if [ "$(python3 -c "import json;print(json.load(open('$d/meta.json')).get('expect',''))")" = "lemma" ]; then
+    # a change the property does not clearly forbid: expected to show as a failed lemma only, never as a violation
+    if [ $rc -eq 0 ] && echo "$out" | grep -q "^LEMMA-FAILED property=$p "; then echo "LEMMA    $id (as decided: not a violation of the property as stated)"; else echo "MISSED   $id (expected LEMMA-FAILED with exit 0, got exit $rc)"; miss=1; fi
+    continue
+  fi
   if [ $rc -eq 1 ] && [ "$n" -gt 0 ]; then echo "DETECTED $id ($n: $(echo "$out" | grep "^VIOLATION" | sed 's/.*replay=.*\/\([^/]*\)-[0-9a-f]*\.json/\1/' | sort -u | head -3 | tr '\n' ' '))"; else echo "MISSED   $id (exit $rc)"; miss=1; fi
 done
 exit $miss
